@@ -267,6 +267,17 @@ func c12r3(c *Ctx, id string) {
 		vbo := w.Origin(argByName(cc, "vbID"))
 		wantOff := "call((*wrapper.ConcurrentSwissMap[K, V]).Load)(recv.offsets, " + vb + ")#0"
 		wantObs := "call((*wrapper.ConcurrentSwissMap[K, V]).Load)(recv.observers, " + vb + ")#0"
+		if off != wantOff {
+			// the position may be looked up by a helper that fails when there is none (`offset, err := s.offsetOf(vbID)`)
+			if t := w.successValueOf(argByName(cc, "offset")); t != "" {
+				off = t
+			}
+		}
+		if obs != wantObs {
+			if t := w.successValueOf(argByName(cc, "observer")); t != "" {
+				obs = t
+			}
+		}
 		ok := off == wantOff && obs == wantObs && vbo == vb
 		c.Check(ok, id, "open-args@"+fname(os), in.Pos(), "OpenStream(vbID, offsets[vbID], observers[vbID]) read at call time", "openStream passes vbID="+vbo+" offset="+off+" observer="+obs+" — expected the current position and observer of the same vBucket")
 		// result returned
